@@ -37,7 +37,7 @@ impl<'c, Q: Queue> Interp<'c, Q> {
             Op::IterProg { which, prog, end } => self.do_iter_prog(*which, prog, *end),
             Op::Adapt { which, comp, a, b } => self.do_adapt(*which, *comp, *a, *b),
             Op::Extend { pairs, hint } => self.do_extend(pairs, *hint),
-            Op::Append { pairs, swap_roles } => self.do_append(pairs, *swap_roles),
+            Op::Append { pairs, swap_roles, mirror, cap } => self.do_append(pairs, *swap_roles, *mirror, *cap),
             Op::RebuildFromVec { extra } => self.do_from_vec(extra),
             Op::RebuildFromIter { extra, hint } => self.do_from_iter(extra, *hint),
             Op::ConvertRound => self.do_convert(),
